@@ -3562,9 +3562,10 @@ Hgetntinfo(const int32 numbertype, hdf_ntinfo_t *nt_info)
 int
 hi_close_stdio(FILE **f)
 {
-    if (EOF == fclose(*f))
-        return FAIL;
+    int ret = fclose(*f);
+
+    /* the stream is gone whether or not fclose() reported an error: never keep (and later reuse) the pointer */
     *f = NULL;
-    return SUCCEED;
+    return (ret == EOF) ? FAIL : SUCCEED;
 }
 #endif
